@@ -433,8 +433,11 @@ def main_check(pid, tier):
         jobs = [(c, "enumrc", None, None if (c.name in full and (c.opt != "-O0" or prop.get("full_O0"))) else thin) for c in cfgs]
         nsh = int(os.environ.get("VERIF_SWEEP_SHARDS", "8"))
         if prop.get("sweep", True):
+            # the 2^32-sized sweeps run on the main rungs of the ladder (which between them execute the arms of every instruction-set level),
+            # not on every cover configuration: 18 configurations x 8 shards of 2-10 minutes each took most of an hour for one property
+            rungs = {C.Config(m).name for m in ([], ["SSE2"], ["SSE4_1", "BMI"], ["AVX2"], ["AVX512F"], ["AVX512VL", "AVX512BW"], list(C.EVERYTHING))}
             for c in cfgs:
-                if c.name in cover:
+                if c.name in cover and c.name in rungs:
                     jobs += [(c, "sweep", (i, nsh), None) for i in range(nsh)]
     with ThreadPoolExecutor(max_workers=JOBS) as ex:
         results = list(ex.map(lambda j: run_one(prop, j[0], tier, rpath, known, outdir, j[1], j[2], j[3] if len(j) > 3 else None), jobs))
